@@ -2,6 +2,8 @@
 """Shared Hypothesis strategies and JSON encodings for layouts and index expressions."""
 
 import itertools
+import os
+from pathlib import Path
 
 import numpy as np
 from hypothesis import strategies as st
@@ -35,6 +37,8 @@ def to_cols(c):
         return slice(None, None, -1)
     if t in ('list', 'perm'):
         return list(c['v'])
+    if t == 'int':
+        return int(c['v'])
     raise ValueError(c)
 
 
@@ -78,7 +82,9 @@ def all_col_selectors(nch):
     assert nch >= 3
     return [None, {'t': 'slice', 'a': 1, 'b': nch}, {'t': 'rev'},
             {'t': 'list', 'v': [nch - 1, 0]},
-            {'t': 'perm', 'v': list(range(1, nch)) + [0]}]
+            {'t': 'perm', 'v': list(range(1, nch)) + [0]},
+            {'t': 'list', 'v': [0, -1, -nch + 1]},      # negative entries count from the end
+            {'t': 'int', 'v': 1}]
 
 
 def compositions(n):
@@ -152,10 +158,15 @@ def row_expr(draw, n, bounds=(), allow_list=True):
 
 
 @st.composite
-def col_selector(draw, nch):
-    kind = draw(st.sampled_from(['none', 'none', 'slice', 'rev', 'list', 'perm']))
+def col_selector(draw, nch, allow_int=True):
+    kind = draw(st.sampled_from(['none', 'none', 'slice', 'rev', 'list', 'list', 'perm'] +
+                                (['int'] if allow_int else [])))
     if kind == 'none':
         return None
+    if kind == 'int':
+        # one channel: the result loses its second axis, as in NumPy
+        j = draw(st.integers(0, nch - 1))
+        return {'t': 'int', 'v': j - nch if draw(st.booleans()) else j}
     if kind == 'slice':
         a = draw(st.integers(0, nch - 1))
         b = draw(st.integers(a + 1, nch))
@@ -166,8 +177,11 @@ def col_selector(draw, nch):
     if kind == 'perm':
         return {'t': 'perm', 'v': list(draw(st.permutations(list(range(nch)))))}
     k = draw(st.integers(1, nch))
-    return {'t': 'list', 'v': draw(st.lists(st.integers(0, nch - 1), min_size=k, max_size=k,
-                                            unique=True))}
+    v = draw(st.lists(st.integers(0, nch - 1), min_size=k, max_size=k, unique=True))
+    if draw(st.booleans()):
+        # NumPy semantics: negative entries count from the last channel
+        v = [j - nch if draw(st.booleans()) else j for j in v]
+    return {'t': 'list', 'v': v}
 
 
 # ---------------------------------------------------------------------------------------------
@@ -199,29 +213,43 @@ def layout(draw, max_n=64, max_parts=5, backends=('flat', 'flat', 'npy', 'array'
     if backend == 'cbin':
         lay['n_threads'] = draw(st.sampled_from([1, 2, 3]))
         lay['open'] = draw(st.sampled_from(['path', 'reader']))
+    elif lay['dtype'] in ('float32', 'float64', '>f4') and draw(st.integers(0, 2)) == 0:
+        lay['nonfinite'] = True         # NaN / +-inf samples (not offered to the integer codec)
     return lay
 
 
 class OpenReader(object):
     """Context manager: materialise a layout in a scratch dir and open the phylib reader."""
 
-    def __init__(self, lay, must_return):
+    def __init__(self, lay, must_return, dirpath=None):
         self.lay = lay
         self.must_return = must_return
+        # an existing directory to (re)write the recording into: the files are written aside and
+        # moved over the old ones, as a re-export or a copy of newer data does
+        self.dirpath = dirpath
 
     def __enter__(self):
         from phylib.io.traces import get_ephys_reader
         lay = self.lay
         self._cm = env.scratch()
         d = self._cm.__enter__()
-        self.dir = d
-        self.A = rec.values(lay['n'], lay['nch'], lay['dtype'], lay.get('salt', 0))
+        final = None
+        if self.dirpath is not None:
+            final, d = Path(self.dirpath), d / 'aside'
+            d.mkdir()
+        self.dir = final or d
+        self.A = rec.values(lay['n'], lay['nch'], lay['dtype'], lay.get('salt', 0),
+                            nonfinite=lay.get('nonfinite', False))
         self.mt = None
         try:
             b = lay['backend']
             if b == 'cbin':
                 self.sample_rate = 1.0
                 path = rec.write_cbin(d, self.A, sample_rate=1.0, chunk_duration=lay['chunk'])
+                if final:
+                    for q in (path, path.with_suffix('.ch')):
+                        os.replace(q, final / q.name)
+                    path = final / path.name
                 if lay.get('open') == 'reader':
                     import mtscomp
                     self.mt = mtscomp.Reader(n_threads=lay.get('n_threads', 1))
@@ -238,11 +266,18 @@ class OpenReader(object):
                 elif b == 'npy':
                     p = d / 'raw.npy'
                     np.save(p, self.A)
+                    if final:
+                        os.replace(p, final / p.name)
+                        p = final / p.name
                     self.reader = self.must_return('get_ephys_reader', get_ephys_reader, p,
                                                    sample_rate=self.sample_rate)
                 else:
                     paths = rec.write_flat(d, self.A, lay['parts'], lay['offset'],
                                            ext=lay.get('ext', '.dat'), order=lay.get('names', 'asc'))
+                    if final:
+                        for p in paths:
+                            os.replace(p, final / p.name)
+                        paths = [final / p.name for p in paths]
                     arg = paths if (len(paths) > 1 or lay.get('salt', 0) % 2) else paths[0]
                     self.reader = self.must_return(
                         'get_ephys_reader', get_ephys_reader, arg, n_channels=lay['nch'],
@@ -256,6 +291,8 @@ class OpenReader(object):
     def __exit__(self, *exc):
         r = getattr(self, 'reader', None)
         try:
+            if self.dirpath is not None:
+                r = None    # maps of replaced files are left to the garbage collector
             for m in getattr(r, '_mmaps', []) or []:
                 m._mmap.close()
             arr = getattr(r, '_arr', None)
